@@ -395,7 +395,7 @@ func c19SweepArgs(kind int, thorough bool) [][]int {
 			out = append(out, []int{v})
 		}
 	case 3: // dotted quads (NAS / UP)
-		for q := 0; q < 5; q++ {
+		for q := range c19Quads {
 			out = append(out, []int{q, 0}, []int{q, 1})
 		}
 	case 4: // TCP port
@@ -424,8 +424,26 @@ func c19SweepArgs(kind int, thorough bool) [][]int {
 	return out
 }
 
+// Texts that denote an IPv4 address: dotted quads over an octet alphabet, and the same addresses written in the
+// IPv4-mapped IPv6 forms that the standard library prints for dual-stack sockets and parses back to 4 octets.
 var c19Quads = []string{"0.0.0.0", "10.0.0.1", "255.255.255.255", "192.168.127.1", ""}
 var c19QuadBytes = [][]byte{{0, 0, 0, 0}, {10, 0, 0, 1}, {255, 255, 255, 255}, {192, 168, 127, 1}, nil}
+
+func init() {
+	oct := []int{0, 1, 9, 10, 99, 100, 127, 128, 192, 255}
+	for _, a := range oct {
+		for _, b := range []int{0, 168, 255} {
+			for _, cc := range []int{0, 1, 127, 255} {
+				for _, d := range oct {
+					q := []byte{byte(a), byte(b), byte(cc), byte(d)}
+					dotted := fmt.Sprintf("%d.%d.%d.%d", a, b, cc, d)
+					c19Quads = append(c19Quads, dotted, "::ffff:"+dotted, fmt.Sprintf("::ffff:%x:%x", a<<8|b, cc<<8|d), fmt.Sprintf("0:0:0:0:0:ffff:%x:%x", a<<8|b, cc<<8|d), fmt.Sprintf("::FFFF:%02X%02X:%02X%02X", a, b, cc, d))
+					c19QuadBytes = append(c19QuadBytes, q, q, q, q, q)
+				}
+			}
+		}
+	}
+}
 
 func c19Sweep(c *engine.Ctx, kind int, a []int) {
 	c.Evals++
